@@ -10,7 +10,8 @@ THEOREMS = ["GrpcProofs.C32." + t for t in (
     "repick_only_on_newer_picker", "returns_transport_only_if_ready_at_return", "returned_transport_was_ready",
     "blocks_rather_than_fails", "blocking_result_blocks_until_newer_picker", "not_ready_subconn_blocks",
     "failfast_nonstatus_is_unavailable", "status_error_ends_rpc", "woken_by_every_update",
-    "blocked_only_without_newer_picker", "restricted_codes_are_a54")]
+    "blocked_only_without_newer_picker", "restricted_codes_are_a54",
+    "attempt_pick_failfast_is_rpc_failfast", "wait_for_ready_attempt_never_fails_on_picker_error")]
 DESIGN_REF = "DESIGN.md section 8, C32"
 TECHNIQUE = ("Lean 4 theorems over an interleaving model of pickerWrapper.pick (program points of the pick loop, generations as "
              "naturals, any number of concurrent picks, every action sequence), proved by an inductive invariant over the trace; "
@@ -23,7 +24,9 @@ LEVEL_TEXT = ("Machine-checked proof, for every interleaving of picker updates, 
               "the return, that ErrNoSubConnAvailable / non-ready / foreign SubConn / non-status error on a wait-for-ready RPC lead "
               "to blocking until a newer picker (never to an error), that the only errors are closing, context expiry, picker "
               "status errors (A54 restricted codes -> INTERNAL) and UNAVAILABLE for fail-fast non-status errors, and that every "
-              "update/reset/close wakes every blocked pick. The model is diffed against the real pickerWrapper on every run.")
+              "update/reset/close wakes every blocked pick, and that every attempt of an RPC (first, transparent retry, policy retry: any "
+              "numRetries/firstAttempt) picks with the RPC's own fail-fast flag, so no attempt of a wait-for-ready RPC ever fails on a "
+              "non-status picker error. The model is diffed against the real pickerWrapper on every run.")
 LEVEL_NOTE = ("Trusted: Lean kernel; the hand model lean/GrpcModel/Model/PickerWrapper.lean (load+Pick-call and ready-check+return are "
               "single steps: no shared access lies between them); Go semantics of atomic.Pointer Swap/Load, close(chan) and select "
               "(a closed channel is ready; choice between two ready cases is arbitrary = the model's preferCtx bit); "
@@ -31,14 +34,17 @@ LEVEL_NOTE = ("Trusted: Lean kernel; the hand model lean/GrpcModel/Model/PickerW
               "The tie cannot stop the real goroutine between Load and the Pick call, nor between Pick's return and "
               "getReadyTransport (it parks it inside Pick instead, which dominates both windows). SubConns are bare addrConn "
               "structs whose state/transport are set under ac.mu by the harness (the real addrConn lifecycle is C30). "
-              "updatePicker/reset after close are excluded (callers' contract; the real code would nil-dereference).")
+              "The call site stream.go csAttempt.getTransport is driven for real through an export shim on a bare clientStream whose "
+              "call-site-visible fields (callInfo.failFast, numRetries, firstAttempt) are set by the op; the retry loop that produces those "
+              "values is C18's. updatePicker/reset after close are excluded (callers' contract; the real code would nil-dereference).")
 GAP = "custom context.Context whose Err() is neither Canceled nor DeadlineExceeded (pick would spin); channelz accounting; Go scheduler fairness"
 ASSUMPTIONS = ["updatePicker/reset are never called after close (guaranteed by ccBalancerWrapper.UpdateState / ClientConn.Close)",
                "context errors are context.Canceled or context.DeadlineExceeded"]
 RULE = ("directed scenarios (update between Pick call and return, non-ready/foreign SubConn, readiness flip while in Pick, READY with "
         "nil transport, all status codes 0..17/99 plain and wrapped, fail-fast vs wait-for-ready, GRPCStatus()==nil, idle/close while "
-        "blocked or in Pick, deadline/cancel while blocked or in Pick, mass wake-up) + random op sequences from a Python mirror "
-        "of the loop (so that most ops are valid) with 1-5 concurrent picks; a case is non-trivial if some pick blocked and some "
+        "blocked or in Pick, deadline/cancel while blocked or in Pick, mass wake-up; the call site csAttempt.getTransport for every "
+        "combination of fail-fast/wait-for-ready x numRetries in {0,1,2,5} x firstAttempt x every class of picker result) + random op sequences from a Python mirror "
+        "of the loop (so that most ops are valid) with 1-5 concurrent picks, half of them started through getTransport with random attempt state; a case is non-trivial if some pick blocked and some "
         "pick returned; distinct = distinct op sequence")
 
 STATES = ["idle", "connecting", "ready", "tf", "shutdown"]
@@ -103,10 +109,10 @@ class Sim:
             self.closed = True
         elif f[0] == "sc":
             self.sc[int(f[1])] = (f[2], int(f[3]))
-        elif f[0] == "pick":
+        elif f[0] in ("pick", "attempt"):
             if int(f[1]) in self.thr:
                 return
-            to = int(f[3])
+            to = int(f[-1])
             self.thr[int(f[1])] = {"pc": "load", "ch": None, "ff": f[2] != "0", "ctx": False, "g": 0,
                                    "dl": (self.clock + to) if to else None}
         elif f[0] == "ret":
@@ -162,7 +168,12 @@ def random_case(rng, n):
         if r < 0.30 and inpick:
             op = rand_ret(rng, sim, rng.choice(inpick))
         elif r < 0.45 and len(live) < max_thr:
-            op = "pick %d %d %d" % (next_tid, rng.randrange(2), rng.choice([0, 0, 0, 2, 5]))
+            if rng.random() < 0.5:
+                op = "pick %d %d %d" % (next_tid, rng.randrange(2), rng.choice([0, 0, 0, 2, 5]))
+            else:
+                # an attempt of an RPC through the real call site csAttempt.getTransport
+                op = "attempt %d %d %d %d %d" % (next_tid, rng.randrange(2), rng.choice([0, 0, 1, 1, 2, 3, 7]), rng.randrange(2),
+                                                 rng.choice([0, 0, 0, 2, 5]))
             next_tid += 1
         elif r < 0.62:
             op = "update p" if rng.random() < 0.85 else "update nil"
@@ -213,6 +224,15 @@ def directed():
     yield "mass-wake", ["pick %d %d 0" % (i, i % 2) for i in range(1, 7)] + ["update nil", "idle", "update p"] + ["ret %d nosc" % i for i in range(1, 7)] + \
         ["sc 1 ready 1", "update p"] + ["ret %d sc 1" % i for i in range(1, 7)]
     yield "foreign", ["update p", "pick 1 1 0", "ret 1 foreign", "update p", "ret 1 foreign", "sleep 1", "update p", "sc 1 ready 1", "ret 1 sc 1"]
+    # the call site: every attempt kind (numRetries, firstAttempt) x fail-fast/wait-for-ready x every class of picker result
+    for ff in (0, 1):
+        for nr in (0, 1, 2, 5):
+            for first in (0, 1):
+                yield "callsite-ff%d-nr%d-first%d" % (ff, nr, first), ["update p"] + \
+                    ["attempt %d %d %d %d 0" % (i, ff, nr, first) for i in range(1, 7)] + \
+                    ["ret 1 err 3", "ret 2 nilst 4", "ret 3 nosc", "ret 4 sc 1", "ret 5 st 14", "ret 6 foreign", "sc 1 ready 2", "update p",
+                     "ret 1 err 5", "ret 2 sc 1", "ret 3 sc 1", "ret 4 wst 9", "ret 6 sc 1", "update p", "ret 1 sc 1"]
+    yield "callsite-deadline", ["update p", "attempt 1 0 1 0 3", "attempt 2 0 2 0 0", "ret 1 err 3", "ret 2 err 4", "sleep 3", "cancel 2", "attempt 3 0 1 0 0", "close"]
     yield "bad-ops", ["ret 1 nosc", "cancel 1", "pick 1 0 0", "pick 1 0 0", "ret 1 nosc", "update x", "sc 1 foo 1", "close", "update p", "idle", "close", "sleep 1"]
 
 
